@@ -1,190 +1,2 @@
-(* GENERATED by harness/cmd/genconsts from the current /repo source. Do not edit. *)
-From Coq Require Import List ZArith NArith.
-From Coq.Strings Require Import Byte.
-Import ListNotations.
-
-(* cache/cache.go, the pure segments of get, putIndexEntry, fileName, used, Trim and trimSubdir, translated by
-   harness/go2coq (table: harness/cmd/genconsts/gen_cache_src.go).
-   Definitions: src_Cache_get_parse, src_Cache_get_result, src_Cache_putIndexEntry_entry, src_Cache_fileName_body, src_Cache_used_fresh, src_Cache_Trim_due, src_Cache_Trim_cutoff, src_Cache_trimSubdir_candidate, src_Cache_trimSubdir_stale.  Vocabulary: Lib/GoSem.v, Lib/GoSemSeg.v, Cache/SrcLib.v. *)
-From Coq Require Import Bool.
-From GI Require Import Lib.Bytes Lib.GoSem Lib.GoSemSeg Cache.SrcLib.
-Import GoNotations.
-Local Open Scope go_scope.
-
-(* func Cache_get_parse: for-loop 1 *)
-Fixpoint src_Cache_get_parse_loop1 {L : Type} (fuel n : nat) (v_esize : bytes) (v_i : Z) {struct n}
-  : res (outcome Z L (go_entry * bool)%type) :=
-  match n with
-  | O => OutOfFuel
-  | S n' =>
-    t27 <- (if (v_i <? (len v_esize))%Z then (t26 <- go_index v_esize v_i ;; Ok (beq t26 x20)) else Ok false) ;;
-    if t27 then
-      bindL (
-        let v_i : Z := (v_i + 1%Z)%Z in
-        Ok (Normal v_i)
-      ) (fun v_i =>
-      src_Cache_get_parse_loop1 fuel n' v_esize v_i)
-    else
-      Ok (Normal v_i)
-  end.
-
-(* func Cache_get_parse: for-loop 2 *)
-Fixpoint src_Cache_get_parse_loop2 {L : Type} (fuel n : nat) (v_etime : bytes) (v_i : Z) {struct n}
-  : res (outcome Z L (go_entry * bool)%type) :=
-  match n with
-  | O => OutOfFuel
-  | S n' =>
-    t33 <- (if (v_i <? (len v_etime))%Z then (t32 <- go_index v_etime v_i ;; Ok (beq t32 x20)) else Ok false) ;;
-    if t33 then
-      bindL (
-        let v_i : Z := (v_i + 1%Z)%Z in
-        Ok (Normal v_i)
-      ) (fun v_i =>
-      src_Cache_get_parse_loop2 fuel n' v_etime v_i)
-    else
-      Ok (Normal v_i)
-  end.
-
-(* func Cache.get: segment parse, 16 statement(s) *)
-Definition src_Cache_get_parse (fuel : nat) (v_id : bytes) (v_err : bool) (v_entry : bytes)
-  : res (outcome (bool * bytes * bytes * Z * Z)%type unit (go_entry * bool)%type) :=
-  t1 <- go_index v_entry 0%Z ;;
-  t3 <- (if (negb (beq t1 x76)) then Ok true else (t2 <- go_index v_entry 1%Z ;; Ok (negb (beq t2 x31)))) ;;
-  t5 <- (if t3 then Ok true else (t4 <- go_index v_entry 2%Z ;; Ok (negb (beq t4 x20)))) ;;
-  t7 <- (if t5 then Ok true else (t6 <- go_index v_entry 67%Z ;; Ok (negb (beq t6 x20)))) ;;
-  t9 <- (if t7 then Ok true else (t8 <- go_index v_entry 132%Z ;; Ok (negb (beq t8 x20)))) ;;
-  t11 <- (if t9 then Ok true else (t10 <- go_index v_entry 153%Z ;; Ok (negb (beq t10 x20)))) ;;
-  t13 <- (if t11 then Ok true else (t12 <- go_index v_entry 174%Z ;; Ok (negb (beq t12 x0a)))) ;;
-  if t13 then
-    v_reason <- Ok true ;;
-    Ok (Return ((mkEntry (go_zero_array 32%Z) 0%Z go_time_zero), true))
-  else
-  t14 <- go_slice v_entry 3%Z 67%Z ;;
-  t15 <- go_slice v_entry 67%Z (len v_entry) ;;
-  let '(v_eid, v_entry) := (t14, t15) in
-  t16 <- go_slice v_entry 1%Z 65%Z ;;
-  t17 <- go_slice v_entry 65%Z (len v_entry) ;;
-  let '(v_eout, v_entry) := (t16, t17) in
-  t18 <- go_slice v_entry 1%Z 21%Z ;;
-  t19 <- go_slice v_entry 21%Z (len v_entry) ;;
-  let '(v_esize, v_entry) := (t18, t19) in
-  t20 <- go_slice v_entry 1%Z 21%Z ;;
-  t21 <- go_slice v_entry 21%Z (len v_entry) ;;
-  let '(v_etime, v_entry) := (t20, t21) in
-  let v_buf : bytes := (go_zero_array 32%Z) in
-  '(v_buf, t22) <- go_hex_Decode v_buf v_eid ;;
-  let '(_, t23) := t22 in
-  let v_err_2 : bool := t23 in
-  if v_err_2 then
-    v_reason <- Ok true ;;
-    Ok (Return ((mkEntry (go_zero_array 32%Z) 0%Z go_time_zero), true))
-  else
-  if (negb (bytes_eqb v_buf v_id)) then
-    v_reason <- Ok true ;;
-    Ok (Return ((mkEntry (go_zero_array 32%Z) 0%Z go_time_zero), true))
-  else
-  '(v_buf, t24) <- go_hex_Decode v_buf v_eout ;;
-  let '(_, t25) := t24 in
-  let v_err_3 : bool := t25 in
-  if v_err_3 then
-    v_reason <- Ok true ;;
-    Ok (Return ((mkEntry (go_zero_array 32%Z) 0%Z go_time_zero), true))
-  else
-  let v_i : Z := 0%Z in
-  bindO (src_Cache_get_parse_loop1 fuel fuel v_esize v_i) (fun v_i =>
-  t28 <- go_slice v_esize v_i (len v_esize) ;;
-  '(t30, t31) <- go_strconv_ParseInt t28 10%Z 64%Z ;;
-  let v_size : Z := t30 in
-  let v_err : bool := t31 in
-  if v_err then
-    v_reason <- Ok true ;;
-    Ok (Return ((mkEntry (go_zero_array 32%Z) 0%Z go_time_zero), true))
-  else
-  if (v_size <? 0%Z)%Z then
-    v_reason <- Ok true ;;
-    Ok (Return ((mkEntry (go_zero_array 32%Z) 0%Z go_time_zero), true))
-  else
-  let v_i : Z := 0%Z in
-  bindO (src_Cache_get_parse_loop2 fuel fuel v_etime v_i) (fun v_i =>
-  t34 <- go_slice v_etime v_i (len v_etime) ;;
-  '(t36, t37) <- go_strconv_ParseInt t34 10%Z 64%Z ;;
-  let v_tm : Z := t36 in
-  let v_err : bool := t37 in
-  if v_err then
-    v_reason <- Ok true ;;
-    Ok (Return ((mkEntry (go_zero_array 32%Z) 0%Z go_time_zero), true))
-  else
-  if (v_tm <? 0%Z)%Z then
-    v_reason <- Ok true ;;
-    Ok (Return ((mkEntry (go_zero_array 32%Z) 0%Z go_time_zero), true))
-  else
-  Ok (Normal (v_err, v_entry, v_buf, v_size, v_tm)))).
-
-(* func Cache.get: segment result, 1 statement(s) *)
-Definition src_Cache_get_result (v_buf : bytes) (v_size : Z) (v_tm : Z)
-  : res (outcome unit unit (go_entry * bool)%type) :=
-  Ok (Return ((mkEntry v_buf v_size (go_time_Unix 0%Z v_tm)), false)).
-
-(* func Cache.putIndexEntry: segment entry, 1 statement(s) *)
-Definition src_Cache_putIndexEntry_entry (v_id : bytes) (v_out : bytes) (v_size : Z) (in_1 : go_time)
-  : res (outcome bytes unit bool) :=
-  t1 <- go_fmt_Sprintf [x76; x31; x20; x25; x78; x20; x25; x78; x20; x25; x32; x30; x64; x20; x25; x32; x30; x64; x0a] [(GoAnyBytes v_id); (GoAnyBytes v_out); (GoAnyInt v_size); (GoAnyInt (go_time_UnixNano in_1))] ;;
-  let v_entry : bytes := t1 in
-  Ok (Normal v_entry).
-
-(* func Cache.fileName: segment body, 1 statement(s) *)
-Definition src_Cache_fileName_body (v_c : go_cache) (v_id : bytes) (v_key : bytes)
-  : res (outcome unit unit bytes) :=
-  t1 <- go_index v_id 0%Z ;;
-  t2 <- go_fmt_Sprintf [x25; x30; x32; x78] [(GoAnyByte t1)] ;;
-  t3 <- go_fmt_Sprintf [x25; x78] [(GoAnyBytes v_id)] ;;
-  t4 <- go_filepath_Join [(cache_dir v_c); t2; ((t3 ++ [x2d]) ++ v_key)] ;;
-  Ok (Return t4).
-
-(* func Cache.used: segment fresh, 1 statement(s) *)
-Definition src_Cache_used_fresh (v_info : go_time) (v_err : bool) (in_1 : go_time)
-  : res (outcome unit unit unit) :=
-  if ((negb v_err) && ((go_time_Sub in_1 (go_fileinfo_ModTime v_info)) <? 3600000000000%Z)%Z) then
-    Ok (Return tt)
-  else
-  Ok (Normal tt).
-
-(* func Cache.Trim: segment due, 1 statement(s) *)
-Definition src_Cache_Trim_due (v_now : go_time) (v_data : bytes)
-  : res (outcome unit unit bool) :=
-  '(t2, t3) <- go_strconv_ParseInt (go_strings_TrimSpace v_data) 10%Z 64%Z ;;
-  let v_t : Z := t2 in
-  let v_err_1 : bool := t3 in
-  bindO (if (negb v_err_1) then
-    let v_lastTrim : go_time := (go_time_Unix v_t 0%Z) in
-    let v_d : Z := (go_time_Sub v_now v_lastTrim) in
-    if ((v_d <? 86400000000000%Z)%Z && (v_d >? (-3600000000000)%Z)%Z) then
-      Ok (Return false)
-    else
-    Ok (Normal tt)
-  else
-    Ok (Normal tt)
-  ) (fun _ =>
-  Ok (Normal tt)).
-
-(* func Cache.Trim: segment cutoff, 1 statement(s) *)
-Definition src_Cache_Trim_cutoff (v_now : go_time)
-  : res (outcome go_time unit bool) :=
-  let v_cutoff : go_time := (go_time_Add v_now (-435600000000000)%Z) in
-  Ok (Normal v_cutoff).
-
-(* func Cache.trimSubdir: segment candidate, 2 statement(s) *)
-Definition src_Cache_trimSubdir_candidate (v_subdir : bytes) (v_name : bytes)
-  : res (outcome bytes unit unit) :=
-  if ((negb (go_bytes_HasSuffix v_name [x2d; x61])) && (negb (go_bytes_HasSuffix v_name [x2d; x64]))) then
-    Ok (Continue tt)
-  else
-  t1 <- go_filepath_Join [v_subdir; v_name] ;;
-  let v_entry : bytes := t1 in
-  Ok (Normal v_entry).
-
-(* func Cache.trimSubdir: the condition of the if statement with the first call of os.Remove in a branch *)
-Definition src_Cache_trimSubdir_stale (v_cutoff : go_time) (v_info : go_time) (v_err_1 : bool)
-  : res bool :=
-  Ok ((negb v_err_1) && (go_time_Before (go_fileinfo_ModTime v_info) v_cutoff)).
-
+(* NOT GENERATED: harness/cmd/genconsts could not translate the current source:
+   cache/cache.go: cache/cache.go:78:23: field of a value of type *github.com/rogpeppe/go-internal/cache.Cache *)
